@@ -10,6 +10,7 @@ CONSTANTS
   OvTargets <- D_OvTargets
   EpBehs <- D_EpBehs
   UseBehs <- D_UseBehs
+  MultiKinds <- D_MultiKinds
 INVARIANT Emit
 INVARIANT RanInRegistrationOrder
 INVARIANT RanOnlyApplicable
